@@ -1438,11 +1438,8 @@ class AstEval:
             for lhs_elt in lhs.elts:
                 if isinstance(lhs_elt, ast.Starred):
                     star_len = len(vals) - len(lhs.elts) + 1
-                    star_name = lhs_elt.value.id
-                    await self.recurse_assign(
-                        ast.Name(id=star_name, ctx=ast.Store()),
-                        vals[val_idx : val_idx + star_len],
-                    )
+                    # the starred target can be any assignment target (name, subscript, attribute)
+                    await self.recurse_assign(lhs_elt.value, vals[val_idx : val_idx + star_len])
                     val_idx += star_len
                 else:
                     await self.recurse_assign(lhs_elt, vals[val_idx])
